@@ -273,7 +273,7 @@ class FullOps(TorchCalls):
         if fn == "isfinite" or fn in ("isnan", "isinf"):
             if a0 is not None and a0.alias and a0.origin == frozenset(["matrix"]) and a0.axes == ("R", "C"):
                 self.ev("finite_check", node)
-        elif fn not in LIKE and a0 is not None:
+        elif fn not in LIKE and a0 is not None and a0.note != "finite-test":
             self.note_value_use(a0, node)
             if fn not in CREATORS:
                 self.ev("op", node, op=fn, left=a0.short())
